@@ -127,7 +127,17 @@ def dynamics_of(pt, steps=None):
 
 def same_dynamics(pt_a, pt_b):
     """(ok, detail): dynamics of pt_b against those of pt_a (1e-12)"""
-    ref = dynamics_of(pt_a)
+    try:
+        ref = dynamics_of(pt_a)
+    except Exception as e:          # e.g. a process tensor without caps: both must fail alike
+        try:
+            dynamics_of(pt_b)
+        except Exception as e2:
+            if type(e2) is type(e):
+                return True, ""
+            return False, "compute_dynamics raises %s, the original %s" % (
+                type(e2).__name__, type(e).__name__)
+        return False, "compute_dynamics runs, the original raises " + type(e).__name__
     try:
         got = dynamics_of(pt_b)
     except Exception as e:
@@ -322,9 +332,18 @@ def pt_specs(tier, rng):
     specs.append(gen_pt_spec(rng, length=3, rank=4, with_tr=True, with_dt=True, named=True))
     specs.append(gen_pt_spec(rng, length=2, rank=4, with_tr=True, with_dt=False, named=False))
     specs.append(gen_pt_spec(rng, length=2, rank=3, dim=3, max_bond=2))
+    # exactly one of the two transforms (the constructors allow it)
+    specs.append(gen_pt_spec(rng, length=2, rank=4, with_tr="in", max_bond=2))
+    specs.append(gen_pt_spec(rng, length=3, rank=4, with_tr="out", max_bond=2))
+    # caps that compute_caps() would not produce: user-defined ones, and none at all
+    specs.append(gen_pt_spec(rng, length=3, rank=3, caps="custom", max_bond=3))
+    specs.append(gen_pt_spec(rng, length=2, rank=4, caps="custom", with_tr="both", max_bond=2))
+    specs.append(gen_pt_spec(rng, length=2, rank=3, caps="none", max_bond=2))
     extra = 0 if tier == "quick" else 40
     for _ in range(extra):
-        specs.append(gen_pt_spec(rng, dim=rng.choice([2, 2, 3])))
+        specs.append(gen_pt_spec(rng, dim=rng.choice([2, 2, 3]),
+                                 with_tr=rng.choice([None, None, "in", "out", "both"]),
+                                 caps=rng.choice(["computed", "computed", "custom", "none"])))
     return specs
 
 
@@ -498,7 +517,7 @@ def pttempo_pair(coupling, steps, name):
         mem = oqupy.pt_tempo_compute(bath=bath, **kw)
         with ApiRecorder() as rec:
             fpt = oqupy.pt_tempo_compute(bath=bath, process_tensor_file=path, overwrite=True, **kw)
-        tensor_calls = list(rec.calls)
+        tensor_calls = [c for c in rec.calls if c[0] in ("I", "M", "C")]
         meta = enc_meta(*rec.meta[:6])
         for obj in (mem, fpt):
             obj.name = NAME_LATER
